@@ -112,7 +112,7 @@ CHECKS = {
                   "decided by device simulators, pattern characterisations, index-inequality definitions and Greene's theorem",
         text="Exhaustive S_0..S_7 (S_8 thorough) + random longer permutations; Simion-Schmidt checked as a bijection level by level (both "
              "directions) with domain rejection. Exploration only.",
-        note="trusted: vf/oracle/sorting.py; conventions for n <= 2 from the docstrings",
+        note="trusted: vf/oracle/sorting.py; conventions for n <= 2 from the docstrings; known finding K6 (recursion depth of the recursive sorting operators on long monotone input) classified by mechanism",
         ref="DESIGN.md §4 C12",
     ),
 
@@ -217,6 +217,27 @@ ROUND3 = {
 }
 
 
+# workloads added after the fourth round (DESIGN.md §9.5)
+ROUND4 = {
+    "C01": " Patterns of 500-640 points; the same collection object re-used after the caller replaced members.",
+    "C04": " Patterns of 500-620 points through all eight images.",
+    "C05": " Increasing+decreasing pattern pairs with avoiders of every admissible length; antichains of 120/720 elements.",
+    "C06": " Several same-perm arguments in every order; range objects as index collections.",
+    "C07": " 30% of the cases use raw _thread threads; deep cases to length 10 (11) with closed-form expectations.",
+    "C08": " Nested shading families over grids of 16-64 cells.",
+    "C09": " Lazily consumed mesh listings for lengths 3-10; mixed int/float/Fraction/Decimal standardisation inputs.",
+    "C10": " Shift amounts up to 10^30; products and sums of up to 2500 arguments, also from deep in the call stack.",
+    "C11": " The primality helper asked in arbitrary order; statistics on 500-1500 points; class pairs whose per-length differences cancel in total.",
+    "C12": " Simion-Schmidt on members of 300-1100 (2000) points and in an interpreter started with -O; devices on long inputs (known finding K6: recursion depth).",
+    "C13": " Bases meeting exactly nine of the ten classes; members of 501-640 points (structural membership oracle).",
+    "C14": " Words of more than 1000 letters; a shard with perturbed ambient process state (decimal precision, cwd, recursion limit, random seed).",
+    "C15": " Planted self-overlapping pin sequences for basis elements of length 7.",
+    "C16": " The whole verdict is monitored (family formulas on the full basis; non-pin and oscillation arguments); bases where non-pin permutations matter.",
+    "C17": " bisc with n omitted on lists with missing lengths.",
+    "C20": " Never-written files named like shipped data sets; convention-change write sequences over consecutive lengths.",
+}
+
+
 def main():
     props = [json.loads(l) for l in open(os.path.join(HERE, "properties.jsonl"))]
     checks, na = [], []
@@ -231,7 +252,7 @@ def main():
                 "evidence_file": f"/verif/evidence/{pid}.json",
                 "replay_cmd_template": f"./check {pid} --replay {{path}}",
                 "engine": "vf",
-                "level_claimed": {"category": "exploration", "text": c["text"] + ROUND3.get(pid, ""), "design_ref": c["ref"]},
+                "level_claimed": {"category": "exploration", "text": c["text"] + ROUND3.get(pid, "") + ROUND4.get(pid, ""), "design_ref": c["ref"]},
                 "level_note": c["note"],
                 "technique": c["technique"],
             })
